@@ -192,6 +192,7 @@ func (l *Lexer) Next() (TokenType, []byte) {
 		if l.consumeIdentifierToken() {
 			return PrivateIdentifierToken, l.r.Shift()
 		}
+		l.r.Move(-1) // report the '#' itself
 	default:
 		if l.consumeIdentifierToken() {
 			if prevNumericLiteral {
@@ -447,7 +448,7 @@ var opOpEqTokens = map[byte]TokenType{
 func (l *Lexer) consumeOperatorToken() TokenType {
 	c := l.r.Peek(0)
 	l.r.Move(1)
-	if l.r.Peek(0) == '=' {
+	if l.r.Peek(0) == '=' && c != '~' && c != '?' {
 		l.r.Move(1)
 		if l.r.Peek(0) == '=' && (c == '!' || c == '=') {
 			l.r.Move(1)
